@@ -12,7 +12,7 @@ import (
 func OvPool() []ref.FunSig {
 	a, b := m.Var("a"), m.Var("b")
 	mk := func(i int, ret *m.Type, ps ...*m.Type) ref.FunSig {
-		return ref.FunSig{Name: "ov", Params: ps, Ret: ret, Impl: "ov#" + string(rune('A'+i))}
+		return ref.FunSig{Name: "ov", Params: ps, Ret: ret, Impl: "ov#" + string(rune('A'+i))} // markers ov#A, ov#B, ...
 	}
 	wh := m.Obj(m.Field{Name: "w", T: m.Num}, m.Field{Name: "h", T: m.Num})
 	hw := m.Obj(m.Field{Name: "h", T: m.Num}, m.Field{Name: "w", T: m.Num})
@@ -33,6 +33,14 @@ func OvPool() []ref.FunSig {
 		mk(13, m.Str, m.Maybe(a), a),
 		mk(14, m.Str, a, m.Str),
 		mk(15, m.Str, m.Str, m.Str),
+		// polymorphic overloads whose parameters CONTAIN object types (field order of the argument is free)
+		mk(16, m.Str, m.Obj(m.Field{Name: "x", T: a}, m.Field{Name: "y", T: m.Num})),
+		mk(17, m.Str, m.List(m.Obj(m.Field{Name: "x", T: a}, m.Field{Name: "y", T: m.Num}, m.Field{Name: "z", T: m.Str})), a),
+		mk(18, m.Str, m.Obj(m.Field{Name: "p", T: m.List(a)}, m.Field{Name: "q", T: m.Map(m.Str, a)}), a),
+		// monomorphic overloads with the same composite parameter twice (the same variable may be passed twice)
+		mk(19, m.Str, m.List(m.Num), m.List(m.Num)),
+		mk(20, m.Str, m.Obj(m.Field{Name: "w", T: m.Num}, m.Field{Name: "h", T: m.Num}), m.Obj(m.Field{Name: "w", T: m.Num}, m.Field{Name: "h", T: m.Num})),
+		mk(21, m.Str, m.Map(m.Str, m.List(m.Num)), m.Map(m.Str, m.List(m.Num)), m.Num),
 	}
 }
 
@@ -78,6 +86,16 @@ func (g *G) OvCall(fuel int) *m.Expr {
 			args[i] = g.expr(g.anyType(2), fuel-1)
 		default:
 			args[i] = g.expr(pt, fuel-1)
+		}
+	}
+	// the same variable passed for two parameters of equal type
+	for i := range f.Params {
+		for j := i + 1; j < len(f.Params); j++ {
+			if m.Equal(f.Params[i].Subst1(inst), f.Params[j].Subst1(inst)) && !f.Params[i].Subst1(inst).IsPrim() && g.chance("samevar", 1, 2) {
+				v := g.Var(f.Params[i].Subst1(inst))
+				args[i], args[j] = v, v.Clone()
+				g.stat("same-variable-twice")
+			}
 		}
 	}
 	return m.Call("ov", args...)
